@@ -177,6 +177,28 @@ func runCheck(prog *Program, prop, tier, verif, only string, loadSecs float64, t
 		}
 	}
 	sort.Slice(targets, func(i, j int) bool { return targets[i].Key < targets[j].Key })
+	// contracts of helper functions (trusted, or carrying no property tag) in the packages of this property's targets:
+	// one that is attached to a function that does not exist is never used - say so instead of ignoring it silently
+	tpk := map[string]bool{}
+	for _, c := range targets {
+		tpk[c.PkgPath] = true
+	}
+	var stale []string
+	for _, c := range prog.specs.Contracts {
+		if (c.Kind != "func" && c.Kind != "closure") || !tpk[c.PkgPath] {
+			continue
+		}
+		if c.hasProp(prop) && (!c.Opts["trusted"] || c.Opts["own"]) {
+			continue // a target: reported below
+		}
+		if _, err := prog.findTarget(c); err != nil {
+			stale = append(stale, fmt.Sprintf("UNDECIDED property=%s func=%s reason=contract attached to no function: %v", prop, c.Local, err))
+		}
+	}
+	sort.Strings(stale)
+	for _, l := range stale {
+		fmt.Println(l)
+	}
 
 	type item = struct {
 		vc *VC
